@@ -15,6 +15,7 @@ const (
 	verifPopTake       // a stream writer is about to take the next RPC out of its queue
 	verifSendValidated // a validated message is about to be handed to the event loop
 	verifSendBatch     // a message batch is about to be handed to the event loop
+	verifLoopEvent     // the event loop has received a peer / stream / wire event and not yet handled it
 )
 
 func verifYield(int) {}
